@@ -857,6 +857,8 @@ def enc_size_stream(g, n=40, start_id=7000):
     cat = [[40, 40], [40, 4096], [4096, 40, 4096], [200, 0, 200], [200, 100, 300, 200], [0], [0, 4096], [100, 0], [0, 100],
            [64, 4096], [4096, 64], [40, 100, 40], [100, 40, 100], [8192], [8192, 4096], [33, 34, 33], [0, 0], [4096], [4096, 4096, 4096],
            [1024] + [2048 + j for j in range(16)] + [2063], [300 + j for j in range(20)] + [319, 319], [65537], [100000, 65536], [1 << 20, 70000], [31], [64, 31, 31], [30, 31, 32], [158, 159], [40, 100, 60], [200, 40, 200],
+           *[[1000 + j for j in range(kk)] + [1000 + kk - 1] for kk in (2, 3, 4, 5, 8, 15, 16, 17, 31, 32, 33, 64, 65)],
+           *[[500] + [1000 + j for j in range(kk)] + [1000 + kk - 1, 1000 + kk - 1] for kk in (7, 15, 16, 31)],
            [0] + list(range(1000, 1200, 10)) + [4096], list(range(4000, 4040)), [100 + (7 * j) % 50 for j in range(30)] + [35]]
     i = start_id
     for seq in cat + [[rnd.choice(pool) for _ in range(rnd.randint(1, 5))] for _ in range(n)]:
@@ -1559,4 +1561,169 @@ def huff_alignment_catalogue():
                 s = b'0' * shift + bytes([a, b]) + b'0' * (shift % 3)
                 ops.append('hrt ' + hx(s))
                 ops.append('hdec ' + hx(huff_encode(s)))
+    return ops
+
+
+
+# ====================================================================================================
+# round-4 additions
+# ====================================================================================================
+def raise_then_reference_stream(start_id=24000):
+    """the table was shrunk earlier (by a size update in a block, or by the header_table_size setter); the next block
+    RAISES it again, inserts one large entry and references it many times; limits just below / at / far below the
+    real list size (and far above 60 x the block length)"""
+    ops = []
+    d = start_id
+    for shrink in ('update0', 'update64', 'setter0'):
+        for esz, k in ((233, 200), (1000, 50), (4000, 20), (100, 400)):
+            n = b'n' * 20
+            v = b'v' * (esz - 32 - 20)
+            blk = int_octets(4096, 5, 0x20) + b'\x40' + int_octets(len(n), 7) + n + int_octets(len(v), 7) + v + b'\xbe' * k
+            total = esz * (k + 1)
+            for lim in (total - 1, total, total // 2, 61 * len(blk), 60 * len(blk) - 1, esz * 3 - 1):
+                if lim < esz:
+                    continue
+                d += 1
+                ops.append('dnew %d %d' % (d, lim))
+                if shrink == 'update0':
+                    ops.append('ddec %d 1 20' % d)
+                elif shrink == 'update64':
+                    ops.append('ddec %d 1 3f21' % d)
+                else:
+                    ops.append('dsize %d 0' % d)
+                ops.append('ddec %d 1 %s' % (d, hx(blk)))
+                ops.append('ddec %d 1 be' % d)
+    return ops
+
+
+def limit_interleaved_stream(start_id=25000):
+    """several decoders with DIFFERENT list-size limits alive at once; another one is constructed, or has its limit
+    assigned, between configuring a decoder and using it"""
+    ops = []
+    lims = [100, 65536, 50, 1000, 0, 124, 123]
+    ids = [start_id + j for j in range(len(lims))]
+    for i, l in zip(ids, lims):
+        ops.append('dnew %d %d' % (i, l))
+    blocks = [b'\x00\x01a\x01b',                                   # 34
+              b'\x00\x05aaaaa\x0dbbbbbbbbbbbbb',                   # 50
+              b'\x00\x05aaaaa\x0ebbbbbbbbbbbbbb',                  # 51
+              b'\x00\x01a\x01b' * 3,                               # 102
+              b'\x00\x0aaaaaaaaaaa\x14' + b'b' * 20 + b'\x00\x0aaaaaaaaaaa\x14' + b'b' * 20,     # 124
+              b'\x82' * 30]                                         # 30 x 42
+    for b in blocks:
+        for i in ids:
+            ops.append('ddec %d 1 %s' % (i, hx(b)))
+    ops.append('dnew %d' % (start_id + 50))
+    for b in blocks:
+        for i in reversed(ids):
+            ops.append('ddec %d 0 %s' % (i, hx(b)))
+    ops.append('dlimit %d 10' % ids[1])
+    for b in blocks[:3]:
+        for i in ids:
+            ops.append('ddec %d 1 %s' % (i, hx(b)))
+    ops.append('dlimit %d 1000000' % ids[2])
+    ops.append('dnew %d 7' % (start_id + 51))
+    for b in blocks:
+        for i in ids:
+            ops.append('ddec %d 1 %s' % (i, hx(b)))
+    # the same for the permitted table size and the table size itself
+    for j, a in enumerate((0, 100, 4096, 8192)):
+        ops.append('dallow %d %d' % (ids[j], a))
+    for i in ids:
+        ops.append('ddec %d 1 %s' % (i, hx(b'\x3f\x45\x40\x01a\x01b\xbe')))
+        ops.append('ddec %d 1 be' % i)
+    return ops
+
+
+def never_indexed_utf8_stream(start_id=26000):
+    """never-indexed (and the other two) literals whose name or value holds non-ASCII UTF-8, literal name and indexed
+    name, plain and Huffman, decoded in text mode and in raw mode: the class of the returned tuple"""
+    ops = []
+    d = start_id
+    strs = ['caf\u00e9', 'na\u00efve', '\u20ac', 'pass\u00f8rd', '\U0001f600', 'ascii', '\u00e9', 'x\u00e9x']
+    for raw in (0, 1):
+        d += 1
+        ops.append('dnew %d' % d)
+        for pat in (0x10, 0x00, 0x40):
+            for s_ in strs:
+                u = s_.encode('utf-8')
+                for huff in (False, True):
+                    def st(x):
+                        if huff:
+                            e = huff_encode(x); return int_octets(len(e), 7, 0x80) + e
+                        return int_octets(len(x), 7) + x
+                    ops.append('ddec %d %d %s' % (d, raw, hx(bytes([pat]) + st(b'x-name') + st(u))))          # value
+                    ops.append('ddec %d %d %s' % (d, raw, hx(bytes([pat]) + st(u) + st(b'value'))))           # name
+                    ops.append('ddec %d %d %s' % (d, raw, hx(bytes([pat]) + st(u) + st(u))))                  # both
+                    idxpat = {0x10: 0x1f, 0x00: 0x0f, 0x40: 0x7f}[pat]
+                    pre = {0x10: 4, 0x00: 4, 0x40: 6}[pat]
+                    ops.append('ddec %d %d %s' % (d, raw, hx(int_octets(23, pre, pat) + st(u))))              # authorization: <u>
+                    ops.append('ddec %d %d %s' % (d, raw, hx(bytes([pat]) + st(b'a') + st(b'ok') + bytes([0x10]) + st(b'b') + st(u) + bytes([pat]) + st(u) + st(b'z'))))
+    return ops
+
+
+def both_sensitivities_stream(g, n=12, start_id=27000):
+    """ONE encoder is given the same (name, value) with different sensitivity, in forms that compare equal as tuples
+    (2-tuple / HeaderTuple / NeverIndexedHeaderTuple / subclasses) and in 3-tuples, within a call and across calls.
+    Returns (ops, groups): encoders of a group get the same normalised sequence in different forms."""
+    ops, groups = [], []
+    rnd = g.rnd
+    i = start_id
+    fields = [(b'n', b'v'), (b'cookie', b'secret'), (b':path', b'/'), (b'authorization', b'basic abc'), (b'x', b''), (b'etag', b'"1"')]
+    plain = ['2', 'H', '3f', '30', '3n', 'T']
+    sens = ['N', '3t', '31', 'S', '3y']
+    cat = [[0, 1], [1, 0], [0, 1, 0], [1, 0, 1], [0, 0, 1, 1, 0], [1, 1, 0, 0, 1]]
+    for pattern in cat + [[rnd.randrange(2) for _ in range(rnd.randint(2, 6))] for _ in range(n)]:
+        f = rnd.choice(fields)
+        tb = rnd.choice(['bb', 'ss'])
+        variants = [('2', 'N'), ('H', 'N'), ('3f', '3t'), ('T', 'S'), ('2', 'S'), ('H', '3t')]
+        for split in (False, True):
+            ids = []
+            for pf, sf in variants:
+                i += 1
+                ids.append(i)
+                ops.append('enew %d' % i)
+                toks = ['%s%s:%s:%s' % (sf if sbit else pf, tb, hx(f[0]), hx(f[1])) for sbit in pattern]
+                if split:
+                    for t in toks:
+                        ops.append('eapi %d 0 list %s' % (i, t))
+                else:
+                    ops.append('eapi %d 0 list %s' % (i, ' '.join(toks)))
+                ops.append('eapi %d 1 tuple %s' % (i, ' '.join(toks[::-1])))
+            groups.append(ids)
+    return ops, groups
+
+
+def failed_then_fresh_stream(start_id=28000):
+    """a decoder (or the module function) is given input that FAILS part-way - a Huffman string cut in mid-code, with
+    EOS, with bad padding, a bad index, an oversized list, a truncated block - and then another, fresh decoder (and the
+    same one) decodes ordinary blocks: nothing of the failed call may show"""
+    ops = []
+    d = start_id
+    good = huff_encode(b'x-request-id')
+    goodv = huff_encode(b'deadbeef')
+    okblock = b'\x40' + int_octets(len(good), 7, 0x80) + good + int_octets(len(goodv), 7, 0x80) + goodv + b'\xbe\x82'
+    sec = huff_encode(b'secret')
+    bad_strings = [sec + b'\xff\xff\xff\xff', sec[:-1], sec + b'\x00'[:0] + b'\xff', huff_encode(b'secretsecret')[:-2] + b'\x3f\xff\xff\xff\xff',
+                   huff_encode(b'\x00\x01\x02')[:-1], huff_encode(b'abc') + b'\xff\xff']
+    fails = [b'\x00' + int_octets(len(b), 7, 0x80) + b + b'\x01v' for b in bad_strings]
+    fails += [b'\x40\x01a\x01b\xc5', b'\x40\x01a\x01b\x00\x05ab', b'\x40\x03abc\x7f', b'\x82\x3f\xff\xff\x7f', b'\x40\x01a\x01b\x80']
+    for f in fails:
+        d += 1
+        a, b, c = d * 3, d * 3 + 1, d * 3 + 2
+        ops.append('dnew %d' % a)
+        ops.append('ddec %d 1 %s' % (a, hx(okblock)))
+        ops.append('ddec %d 1 %s' % (a, hx(f)))
+        ops.append('dnew %d' % b)
+        ops.append('ddec %d 1 %s' % (b, hx(okblock)))
+        ops.append('ddec %d 0 %s' % (b, hx(okblock)))
+        ops.append('ddec %d 1 %s' % (a, hx(okblock)))
+        ops.append('enew %d' % c)
+        ops.append('eenc %d 1 %s:%s:0' % (c, hx(b'x-request-id'), hx(b'deadbeef')))
+        ops.append('pipe %d 1 %d' % (a, c))
+    for b in bad_strings:
+        ops.append('hdec ' + hx(b))
+        ops.append('hdec ' + hx(good))
+        ops.append('hrt ' + hx(b'deadbeef'))
+        ops.append('henc ' + hx(b'deadbeef'))
     return ops
